@@ -2,6 +2,7 @@ package goatlang
 
 import (
 	"fmt"
+	"math"
 	"strings"
 
 	"golang.org/x/exp/slices"
@@ -1118,7 +1119,7 @@ func (c *compiler) doOptimize(in []instruction) []instruction {
 		case n < len(in)-1 && in[n].Code == codePush && in[n+1].Code == codeAdd:
 			out = append(out, instruction{Pos: in[n+1].Pos, Code: codeIncDec, A: in[n].A})
 			n += 1
-		case n < len(in)-1 && in[n].Code == codePush && in[n+1].Code == codeSub && in[n].A != 0: // x - 0 is not x + 0 for x = -0.0
+		case n < len(in)-1 && in[n].Code == codePush && in[n+1].Code == codeSub && in[n].A != 0 && in[n].A != math.MinInt: // x - 0 is not x + 0 for x = -0.0; the smallest int has no negation
 			out = append(out, instruction{Pos: in[n+1].Pos, Code: codeIncDec, A: -in[n].A})
 			n += 1
 
